@@ -6,7 +6,8 @@ external entry point (pure sign / verify; hash sign / verify x 3 pre-hash functi
 message arbitrary), at the mu site of sign_internal / verify_internal the absorb list must be
      tr(64)  |  D(1, constant)  |  L(1) = len(ctx) exactly  |  ctx (whole)  |  tail
   R1  D = 0x00 for the pure entry points, 0x01 for the hash ones (distinct constants);
-  R2  L is the exact linear form 1*len(ctx)+0 in [0,255] and sits BEFORE the context, and the
+  R2  (contexts of ANY length are fed to the entry points) L is the exact linear form 1*len(ctx)+0 in [0,255] -
+      so no context longer than 255 bytes reaches the hash, where 256 would alias 0 - and sits BEFORE the context, and the
       context item is the whole of the caller's ctx (start 0, length = len(ctx));
   R3  pure tail = [the whole message];  hash tail = [OID(11 constant bytes), PH(M) of the table
       length];  the three OIDs are pairwise distinct, of equal length, and equal FIPS 204's;
@@ -27,13 +28,13 @@ import structure as st
 import vlib
 
 
-def jobs_for(s):
+def jobs_for(s, ctx="0..255"):
     n = roots.names(s)
-    J = [("%s:sign:pure" % s, n["try_sign_with_rng"], {"sk": "from_bytes", "rng": "ok", "len.ctx": "0..255"}),
-         ("%s:verify:pure" % s, n["verify"], {"pk": "from_bytes", "len.ctx": "0..255"})]
+    J = [("%s:sign:pure" % s, n["try_sign_with_rng"], {"sk": "from_bytes", "rng": "ok", "len.ctx": ctx}),
+         ("%s:verify:pure" % s, n["verify"], {"pk": "from_bytes", "len.ctx": ctx})]
     for k in (0, 1, 2):
-        J.append(("%s:sign:ph%d" % (s, k), n["try_hash_sign_with_rng"], {"sk": "from_bytes", "rng": "ok", "len.ctx": "0..255", "variant.ph": str(k)}))
-        J.append(("%s:verify:ph%d" % (s, k), n["hash_verify"], {"pk": "from_bytes", "len.ctx": "0..255", "variant.ph": str(k)}))
+        J.append(("%s:sign:ph%d" % (s, k), n["try_hash_sign_with_rng"], {"sk": "from_bytes", "rng": "ok", "len.ctx": ctx, "variant.ph": str(k)}))
+        J.append(("%s:verify:ph%d" % (s, k), n["hash_verify"], {"pk": "from_bytes", "len.ctx": ctx, "variant.ph": str(k)}))
     return J
 
 
@@ -61,7 +62,9 @@ def main(tier):
         else:
             rep.violation(key, detail)
 
-    samples = analyse(rep, ob, aicheck.sets_for(tier))
+    # contexts of ANY length are fed in: that the length byte is exactly len(ctx) in [0,255] at the mu site then also says
+    # that no longer context ever reaches the hash (a 256-byte context would alias the empty one: 256 mod 256 = 0)
+    samples = analyse(rep, ob, aicheck.sets_for(tier), ctx="0..max")
     cov = {
         "obligations": cnt[0], "discharged": cnt[1],
         "checker_cmd": "python3 bin/check C06 (driver ai mode, hash probes at the mu site of 8 entry points per set)",
@@ -72,12 +75,12 @@ def main(tier):
     return rep.finish("proof", cov, ["hash collision resistance", "abstract interpreter soundness"])
 
 
-def analyse(rep, ob, sets, prefix="", sides=("sign", "verify"), extra_opts=None, want_results=False):
+def analyse(rep, ob, sets, prefix="", sides=("sign", "verify"), extra_opts=None, want_results=False, ctx="0..255"):
     """M' formatting rules R1-R4 for the given parameter sets; `sides` restricts the entry points"""
     if prefix:
         ob0 = ob
         ob = lambda ok, key, detail: ob0(ok, prefix + key, detail)
-    res, errs = aicheck.run_sets({s: [(a, b, dict(c, **(extra_opts or {}))) for a, b, c in jobs_for(s) if a.split(":")[1] in sides] for s in sets})
+    res, errs = aicheck.run_sets({s: [(a, b, dict(c, **(extra_opts or {}))) for a, b, c in jobs_for(s, ctx) if a.split(":")[1] in sides] for s in sets})
     samples = []
 
     for s in sets:
@@ -110,7 +113,7 @@ def analyse(rep, ob, sets, prefix="", sides=("sign", "verify"), extra_opts=None,
                {"rule": "R1 the domain separator is the constant %s" % want_d, "entry": j["root"], "set": s, "item": it[1], "absorbed": mus[0]["rendered"]})
             ob(it[2]["len"] == [1, 1] and it[2]["lin"] == "1*len(ctx) + 0 in [0,255]", "R2:length-byte:%s:%s" % (side, mode),
                {"rule": "R2 the third byte is exactly len(ctx), placed before the context", "entry": j["root"], "set": s, "item": it[2], "absorbed": mus[0]["rendered"]})
-            ob(it[3]["src"].startswith("in.ctx") and it[3]["whole"] and it[3]["len"] == [0, 255], "R2:context-whole:%s:%s" % (side, mode),
+            ob(it[3]["src"].startswith("in.ctx") and it[3]["whole"] and it[3]["len"][0] == 0, "R2:context-whole:%s:%s" % (side, mode),  # (its length is bounded by the length-byte rule)
                {"rule": "R2 the whole context follows its length byte", "entry": j["root"], "set": s, "item": it[3], "absorbed": mus[0]["rendered"]})
             if mode == "pure":
                 ob(it[4]["src"].startswith("in.message") and it[4]["whole"], "R3:message-whole:%s" % side,
